@@ -11,7 +11,8 @@
      message Opt { optional <t> f_<t> for the 15 scalar types; optional E f_enum; optional Sub sub;
                    repeated int32 ri; repeated string rs; repeated Sub rm; map<string,int32> mp;
                    optional group Grp { optional int32 g; } (field name grp);
-                   optional google.protobuf.Any any; map<string,Sub> mm; extensions; }
+                   optional google.protobuf.Any any; map<string,Sub> mm;
+                   repeated group RG { optional int32 g; optional int32 h; } (field name rg); extensions; }
      extend Opt { optional int32 oext; optional Sub osub; }
      extend google.protobuf.<Kind>Options { optional <t> x_<t>; optional E x_enum; optional Opt m;
                    repeated int32 r; repeated Sub rm; }
@@ -20,6 +21,8 @@
    Schema parameters (record sch):
      tf, tk   one schema field (by id) declared with  targets = tk  (tf = "none": no restriction)
      ret      retention (unset | RUNTIME | SOURCE) of the schema fields in RetIds
+     ed       "proto2" (the file above) | "open" | "closed": an  edition = "2023"  file in which enum E is
+              OPEN (the edition's default) resp. CLOSED by  option features.enum_type = CLOSED
 
    Source values (what is written in the .proto):        SV  = [k, neg, s, fs]
      k = int (s decimal magnitude) | flt | id | str | msg (fs = <<[nm, v, colon]>>) | lst
@@ -39,7 +42,9 @@
      * bool: identifiers true / false; inside a message literal also True t False f
        (integers 0 / 1 inside a literal: uncertain)
      * enum: by value name only; inside a message literal also by the number of a declared value;
-       an undeclared number is rejected because E is closed (proto2)
+       an undeclared number is rejected when E is closed (proto2, or features.enum_type = CLOSED) and
+       accepted, stored as that number, when E is open (text_format.cc: unknown numbers are set for
+       enums that are not closed); a number outside int32 rejects either way
      * string / bytes: string literal only; message / group: message literal only
      * a path component before the last must be a singular message or group (path-not-message,
        path-repeated); unknown names reject
@@ -138,6 +143,7 @@ ValT(t) == IF t = "enum" THEN "E" ELSE ""          \* enum type of the custom en
 SubFields == { F("x", "int32", "", "one", FALSE, "Sub.x"), F("y", "string", "", "one", FALSE, "Sub.y"),
                F("rx", "int32", "", "rep", FALSE, "Sub.rx") }
 GrpFields == { F("g", "int32", "", "one", FALSE, "Grp.g") }
+RGFields  == { F("g", "int32", "", "one", FALSE, "RG.g"), F("h", "int32", "", "one", FALSE, "RG.h") }
 AnyFields == { F("type_url", "string", "", "one", FALSE, "Any.type_url"), F("value", "bytes", "", "one", FALSE, "Any.value") }
 MapMFields == { F("key", "string", "", "one", FALSE, "MpM.key"), F("value", "msg", "Sub", "one", FALSE, "MpM.value") }
 MapFields == { F("key", "string", "", "one", FALSE, "Mp.key"), F("value", "int32", "", "one", FALSE, "Mp.value") }
@@ -150,6 +156,7 @@ OptFields == { F("f_" \o t, t, ValT(t), "one", FALSE, "Opt.f_" \o t) : t \in Val
                F("grp", "grp", "Grp", "one", FALSE, "Opt.grp"),
                F("any", "msg", "Any", "one", FALSE, "Opt.any"),
                F("mm", "msg", "MpM", "map", FALSE, "Opt.mm"),
+               F("rg", "grp", "RG", "rep", FALSE, "Opt.rg"),
                F("oext", "int32", "", "one", TRUE, "oext"),
                F("osub", "msg", "Sub", "one", TRUE, "osub") }
 CustomTop == { F("x_" \o t, t, ValT(t), "one", TRUE, "x_" \o t) : t \in ValueTypes } \cup
@@ -185,6 +192,7 @@ Fields(mt, kind) ==
     [] mt = "Mp"  -> MapFields
     [] mt = "Any" -> AnyFields
     [] mt = "MpM" -> MapMFields
+    [] mt = "RG"  -> RGFields
 
 (* an option-name component names a field by its name; extensions by (p.name) *)
 Find(mt, kind, np) == { f \in Fields(mt, kind) : f.n = np.n /\ f.ext = np.ext }
@@ -198,8 +206,8 @@ AnyRefs == {"type.googleapis.com/p.Sub", "type.googleprod.com/p.Sub", "example.c
 AnyHostOk(n) == n \in {"type.googleapis.com/p.Sub", "type.googleprod.com/p.Sub", "type.googleapis.com/p.Nope"}
 AnyType(n) == IF n \in {"type.googleapis.com/p.Sub", "type.googleprod.com/p.Sub", "example.com/p.Sub"} THEN "Sub" ELSE ""
 
-RetIds == {"x_int32", "m", "Opt.f_int32", "Opt.sub", "Opt.rm", "Sub.x", "Sub.y"}
-NoSch == [tf |-> "none", tk |-> {}, ret |-> [i \in RetIds |-> "unset"]]
+RetIds == {"x_int32", "m", "Opt.f_int32", "Opt.sub", "Opt.rm", "Sub.x", "Sub.y", "Grp.g", "RG.g"}
+NoSch == [tf |-> "none", tk |-> {}, ret |-> [i \in RetIds |-> "unset"], ed |-> "proto2"]
 Allowed(f, kind, sch) == sch.tf # f.id \/ Target(kind) \in sch.tk
 RetOf(f, sch) == IF f.id \in RetIds THEN sch.ret[f.id] ELSE "unset"
 
@@ -212,7 +220,7 @@ Put(es, n, v) == IF Has(es, n) THEN [i \in 1..Len(es) |-> IF es[i].n = n THEN E(
 
 (* ------------------------------------------------------------------------------------------ *)
 (* scalar coercion                                                                              *)
-Scalar(f, sv, inML) ==
+Scalar(f, sv, inML, ed) ==
   LET t == f.t IN
   IF t \in IntTypes THEN
       IF sv.k # "int" THEN Rej("int-type")
@@ -238,6 +246,8 @@ Scalar(f, sv, inML) ==
           IF ~inML THEN Rej("enum-number")
           ELSE IF f.mt # "E" THEN Unc("unc:std-enum-number")
           ELSE IF ENumName(sv.neg, sv.s) # "" THEN Ok(CVal("enum", FALSE, ENumName(sv.neg, sv.s)))
+          ELSE IF ~InRange("int32", sv.neg, Rank(sv.s)) THEN Rej("enum-number-range")
+          ELSE IF ed = "open" THEN Ok(CVal("enum", FALSE, (IF sv.neg THEN "#-" ELSE "#") \o sv.s))   \* unnamed number
           ELSE Rej("enum-number-undeclared")
       ELSE Rej("enum-type")
 
@@ -250,7 +260,7 @@ One(f, sv, inML, kind, sch) ==          \* one value for field f (an element if 
   IF f.t \in {"msg", "grp"} THEN
       IF sv.k = "msg" THEN MLFold(f.mt, sv.fs, 1, <<>>, kind, sch) ELSE Rej("message-type")
   ELSE IF sv.k = "msg" THEN Rej("scalar-got-message")
-  ELSE Scalar(f, sv, inML)
+  ELSE Scalar(f, sv, inML, sch.ed)
 
 KeyOf(cv) == IF Has(cv.fs, "key") THEN Get(cv.fs, "key").s ELSE ""
 AddElem(f, es, cv) ==                   \* append to a repeated / map field
@@ -336,7 +346,7 @@ StripEs(mt, es, kind, sch) ==
      LET e == keep[i]
          f == FieldByEntry(mt, kind, e.n)
      IN IF f.t \in {"msg", "grp"} /\ f.card = "one" THEN E(e.n, CMsg(StripEs(f.mt, e.v.fs, kind, sch)))
-        ELSE IF f.t = "msg" /\ f.card = "rep" THEN E(e.n, V("lst", FALSE, "", StripList(f.mt, e.v.fs, kind, sch)))
+        ELSE IF f.t \in {"msg", "grp"} /\ f.card = "rep" THEN E(e.n, V("lst", FALSE, "", StripList(f.mt, e.v.fs, kind, sch)))
         ELSE IF f.card = "map" THEN E(e.n, V("map", FALSE, "", StripList(f.mt, e.v.fs, kind, sch)))   \* entry = {key, value}
         ELSE e]
 StripList(mt, ls, kind, sch) == [j \in 1..Len(ls) |-> E("", CMsg(StripEs(mt, ls[j].v.fs, kind, sch)))]
@@ -349,7 +359,7 @@ RemovedEs(mt, es, kind, sch, prefix) ==
               p == Append(prefix, e.n)
           IN IF RetOf(f, sch) = "SOURCE" THEN {p}
              ELSE IF f.t \in {"msg", "grp"} /\ f.card = "one" THEN RemovedEs(f.mt, e.v.fs, kind, sch, p)
-             ELSE IF f.t = "msg" /\ f.card = "rep" THEN
+             ELSE IF f.t \in {"msg", "grp"} /\ f.card = "rep" THEN
                  UNION { RemovedEs(f.mt, e.v.fs[j].v.fs, kind, sch, Append(p, ToString(j - 1))) : j \in 1..Len(e.v.fs) }
              ELSE {}
           : i \in 1..Len(es) }
@@ -364,7 +374,7 @@ FuzzyEs(mt, es, kind, sch, prefix) ==
               p == Append(prefix, e.n)
           IN IF RetOf(f, sch) = "SOURCE" THEN {}
              ELSE IF f.t \in {"msg", "grp"} /\ f.card = "one" THEN FuzzyEs(f.mt, e.v.fs, kind, sch, p)
-             ELSE IF f.t = "msg" /\ f.card = "rep" THEN
+             ELSE IF f.t \in {"msg", "grp"} /\ f.card = "rep" THEN
                  UNION { FuzzyEs(f.mt, e.v.fs[j].v.fs, kind, sch, Append(p, ToString(j - 1))) : j \in 1..Len(e.v.fs) }
              ELSE IF f.card = "map" /\ \E j \in 1..Len(e.v.fs) : RemovedEs(f.mt, e.v.fs[j].v.fs, kind, sch, <<>>) # {}
                   THEN {p}
